@@ -1,12 +1,21 @@
 #!/bin/sh
 # Re-run every kept seeded change against its property's quick check (scratch copy of /repo/src, never /repo itself).
-# usage: tools/seedregress.sh [Cxx ...]
+# usage: [JOBS=n] tools/seedregress.sh [Cxx ...]     (JOBS properties at a time, default 4)
 cd "$(dirname "$0")/.." || exit 2
-FAIL=0
-for d in seeded/*/; do
-  id=$(basename "$d"); prop=${id%%-*}
-  if [ $# -gt 0 ]; then case " $* " in *" $prop "*) ;; *) continue;; esac; fi
-  out=$(tools/mutant.sh "$d/patch.diff" "$prop" quick 2>&1)
-  if echo "$out" | grep -q "^VIOLATION property=$prop"; then echo "$id caught"; else echo "$id MISSED: $(echo "$out" | tail -1 | cut -c1-160)"; FAIL=1; fi
-done
-exit $FAIL
+if [ "$1" = "--one" ]; then
+  prop=$2
+  for d in $(ls -d seeded/$prop-*/ | sort -t- -k2 -n); do
+    id=$(basename "$d")
+    out=$(tools/mutant.sh "$d/patch.diff" "$prop" quick 2>&1)
+    if echo "$out" | grep -q "^VIOLATION property=$prop"; then echo "$id caught"; else echo "$id MISSED: $(echo "$out" | tail -1 | cut -c1-160)"; fi
+  done
+  exit 0
+fi
+PROPS="$*"
+[ -n "$PROPS" ] || PROPS="C01 C02 C03 C04 C05 C06 C07 C08 C09 C10 C11 C12 C13 C14 C15 C16 C17 C18 C19 C20"
+LOG=$(mktemp /dev/shm/seedregress.XXXXXX)
+echo $PROPS | tr ' ' '\n' | xargs -P "${JOBS:-4}" -I{} sh "$0" --one {} | tee "$LOG"
+echo "caught: $(grep -c ' caught$' "$LOG")  missed: $(grep -c ' MISSED' "$LOG")"
+if grep -q ' MISSED' "$LOG"; then rm -f "$LOG"; exit 1; fi
+rm -f "$LOG"
+exit 0
